@@ -263,7 +263,7 @@ class Ctx:
 
     def go_test(self, relpkg, run, overlay, env=None, timeout=900, parallel=None, args=None, name=None):
         """Build and run an injected driver (a TestVerif* function)."""
-        cmd = ["go", "test", "-tags", "verif", "-vet=off", "-count=1", "-overlay", overlay,
+        cmd = ["go", "test", "-v", "-tags", "verif", "-vet=off", "-count=1", "-overlay", overlay,
                "-run", run, "-timeout", "%ds" % timeout]
         if parallel:
             cmd += ["-parallel", str(parallel)]
